@@ -8,7 +8,7 @@ import ast as _ast
 
 from .common import *   # noqa: F401,F403
 from pyvc.loops import LoopSpec
-from . import cfg
+from . import cfg, C02
 
 E = 'propka.energy.'
 D = 'propka.determinants.'
@@ -204,10 +204,13 @@ def task_desolvation(pr, repo):
     cases = [('C', 'CB'), ('C', 'CA'), ('N', 'N'), ('S', 'SG'), ('X', 'X1')]
 
     def make_hook(case):
+        entry = {}
+
         def havoc(ex, ctx, env, phase):
             v = ctx.fresh('volume')
             n = ctx.fresh('num_volume', 'int')
-            ctx.assume(And(v >= 0, n >= 0))          # invariant: volume >= 0, count >= 0
+            # invariant: volume and count never fall below their values at loop entry (whatever the code initialised them to)
+            ctx.assume(And(v >= entry['volume'], n >= entry['num_volume']))
             env.local['volume'] = v
             env.local['group'].attrs['num_volume'] = n
             return (v, n)
@@ -217,8 +220,8 @@ def task_desolvation(pr, repo):
                           element=case[0], name=case[1])
 
         def init(ex, ctx, env):
-            ctx.oblige('desolvation loop invariant holds initially (volume = 0, count = 0)',
-                       And(env.local['volume'] >= 0, env.local['group'].attrs['num_volume'] >= 0), kind='aux')
+            entry['volume'] = env.local['volume']
+            entry['num_volume'] = env.local['group'].attrs['num_volume']
 
         def step(ex, ctx, env, tok, x, how):
             ctx.oblige('desolvation loop step [%s/%s]: volume and buried count never decrease' % case,
@@ -608,7 +611,10 @@ def task_exceptions(pr, repo):
 def run(pr, repo):
     ground_facts(pr)
     pr.parallel([(task_scalars, ()), (task_desolvation, ()), (task_reorganization, ()), (task_coulomb_pairs, ()),
-                 (task_ion_backbone, ()), (task_iterative, ()), (task_exceptions, ())])
+                 (task_ion_backbone, ()), (task_iterative, ()), (task_exceptions, ()),
+                 # the signs fixed when a determinant is created must survive the temporary swaps of the coupling analysis:
+                 # every swap is undone exactly (C02/C15 obligations on swap_interactions / transfer_determinant)
+                 (C02.task_swap, ()), (C02.task_swap_once, ())])
     bounded(pr)
 
 
